@@ -127,7 +127,7 @@ def extract_function(cname, ptext, body, cxx_name):
         if m:
             row["result"] = (row["result"] + "|" if row["result"] else "") + "CStr:" + m.group(2)
             continue
-        if re.match(r"^(\w+)->[\w\.]+ = ", st) or st.startswith(("ShroudStrToArray", "std::string * SHCXX_rv = new std::string", "std::string *SHCXX_rv = new std::string")) \
+        if re.match(r"^(\w+)->[\w\.\[\]]+ = ", st) or st.startswith(("ShroudStrToArray", "std::string * SHCXX_rv = new std::string", "std::string *SHCXX_rv = new std::string")) \
                 or re.match(r"^(?:const )?[\w:<> ]+?[\*&]? ?SHC?X?X?_rv = ", st):
             row["result"] = (row["result"] + "|" if row["result"] else "") + "ResultGlue"
             continue
